@@ -45,6 +45,9 @@ let hex_of_str s =
   if s = [] then "-" else
   String.concat "" (List.map (fun c -> Printf.sprintf "%02x" (match c with N0 -> 0 | Npos p -> int_of_pos p)) s)
 
+let int_of_n = function N0 -> 0 | Npos p -> int_of_pos p
+let hex_of_n_dec i = string_of_int (int_of_n i)
+let parse_set_exn t = { fin = n_of_hex (String.sub t 2 (String.length t - 2)); inf = (t.[0] = 'i') }
 let parse_set t =
   if t = "NULL" then None
   else
@@ -57,10 +60,13 @@ let topo = ref { fin = N0; inf = false }
 let env : n list option ref = ref None
 let dead = ref true
 let adopted = ref false
+let nodes : (n * bset) list ref = ref []
 
 let dump () =
   let ks = !st.kinds in
-  Printf.printf "nr=%d topo=%s\n" (List.length ks) (show_set !topo);
+  Printf.printf "nr=%d topo=%s nodes=%s\n" (List.length ks) (show_set !topo)
+    (if !nodes = [] then "-" else String.concat "," (List.map (fun (i, s) -> hex_of_n_dec i ^ "=" ^ show_set s)
+       (List.sort (fun (i, _) (j, _) -> compare (int_of_n i) (int_of_n j)) !nodes)));
   List.iteri (fun i k ->
     Printf.printf "k %d rc=0 %s eff=%d infos=%s\n" i (show_set k.k_cpuset) (int_of_z k.k_eff)
       (String.concat "," (List.map (fun (n, v) -> hex_of_str n ^ "=" ^ hex_of_str v) k.k_infos))) ks;
@@ -100,20 +106,32 @@ let () =
     let t = Array.of_list (List.filter (fun s -> s <> "") (String.split_on_char ' ' l)) in
     if Array.length t > 0 then begin
       if t.(0) = "case" then begin
-        let u = int_of_string t.(2) in
         st := init_state; env := None; dead := false; adopted := false;
-        let a = ref N0 in for _ = 1 to u do a := n_shift_add !a true done;
-        topo := { fin = !a; inf = false };
+        (* "case name N": pu:N, one NUMA node with every PU;
+           "case name desc topo nn idx set ...": the generator's layout of the synthetic description *)
+        if Array.length t > 3 then begin
+          topo := parse_set_exn t.(3);
+          let nn = int_of_string t.(4) in
+          nodes := List.init nn (fun k -> (n_of_int (int_of_string t.(5 + 2*k)), parse_set_exn t.(6 + 2*k)))
+        end else begin
+          let u = int_of_string t.(2) in
+          let a = ref N0 in for _ = 1 to u do a := n_shift_add !a true done;
+          topo := { fin = !a; inf = false };
+          nodes := [(N0, !topo)]
+        end;
         Printf.printf "case %s\n" t.(1);
         dump ()
       end else if t.(0) = "casestate" then begin
         (* state taken over from the implementation (kinds registered by an OS backend):
-           casestate name topo env alloc nk { set eff forced rankhex arr ninfos {name value} } *)
+           casestate name topo env nn { idx set } alloc nk { set eff forced rankhex arr ninfos {name value} } *)
         dead := false; adopted := false;
         topo := (match parse_set t.(2) with Some s -> s | None -> failwith "topo");
         env := (if t.(3) = "-" then None else Some (str_of_hex t.(3)));
-        let alloc = int_of_string t.(4) and nk = int_of_string t.(5) in
-        let pos = ref 6 in
+        let nn = int_of_string t.(4) in
+        nodes := List.init nn (fun k -> (n_of_int (int_of_string t.(5 + 2*k)), parse_set_exn t.(6 + 2*k)));
+        let b = 5 + 2 * nn in
+        let alloc = int_of_string t.(b) and nk = int_of_string t.(b + 1) in
+        let pos = ref (b + 2) in
         let ks = List.init nk (fun _ ->
           let p = !pos in
           let ni = int_of_string t.(p + 5) in
@@ -147,10 +165,11 @@ let () =
         (match parse_set t.(1) with
          | None -> ()
          | Some s ->
-           let t' = bs_inter !topo s in
-           if !adopted then do_op "restrict" (OpRestrict t')
-           else if bs_is_empty t' then (print_string "restrict rc=-1 err=EINVAL\n"; dump ())
-           else begin topo := t'; do_op "restrict" (OpRestrict t') end)
+           let flags = if Array.length t > 2 then n_of_int (int_of_string t.(2)) else N0 in
+           if !adopted then do_op "restrict" (OpRestrict !topo)
+           else match topology_restrict { t_cpuset = !topo; t_nodes = !nodes } s flags with
+             | None -> print_string "restrict rc=-1 err=EINVAL\n"; dump ()
+             | Some t' -> topo := t'.t_cpuset; nodes := t'.t_nodes; do_op "restrict" (OpRestrict t'.t_cpuset))
       | "adopt" -> st := adopt_state !st; adopted := true; outcome "adopt" (Fine (!st, RC_OK))
       | "getby" ->
         getres "getby" (fun i -> (string_of_int (int_of_nat i), "")) (get_by_cpuset !st (parse_set t.(1)) (n_of_int (int_of_string t.(2))))
